@@ -502,6 +502,49 @@ def deletion_case(ctx, objs, k):
              sample={"case": cid, "held_at": hit, "command_waited_for_deletion": True} if k == 0 else None)
 
 
+def directory_case(ctx, objs, k):
+    """The output path names an existing directory (with user files in it). Whatever the link's status, the
+    directory and its contents must still be there, unmoved, and nothing else may appear in the sandbox."""
+    kind, threads, fork, via = [("shared", "", "", "dir"), ("exe", "", "--no-fork", "dir"), ("shared", "--threads=1", "", "dir"),
+                                ("shared", "--threads=4", "--no-fork", "symlink-to-dir"), ("exe", "", "", "dir-empty")][k % 5]
+    cid = f"dir{k}"
+    sb = ctx.scratch.dir("sb", cid)
+    out = "out.d" if kind == "shared" else "prog"
+    if via == "symlink-to-dir":
+        os.makedirs(os.path.join(sb, "real.d", "sub"))
+        write(os.path.join(sb, "real.d", "sub", "user.txt"), "user data - must survive\n")
+        os.symlink("real.d", os.path.join(sb, out))
+    else:
+        os.makedirs(os.path.join(sb, out))
+        if via == "dir":
+            write(os.path.join(sb, out, "user.txt"), "user data - must survive\n")
+    if kind == "shared":
+        shutil.copy(objs["so1"], os.path.join(sb, "a.o"))
+        args = ["a.o", "-shared", "-o", out]
+    else:
+        shutil.copy(objs["main"], os.path.join(sb, "main.o"))
+        shutil.copy(objs["f1"], os.path.join(sb, "f1.o"))
+        args = ["main.o", "f1.o", "-o", out]
+    args += [x for x in (threads, fork) if x]
+    before = snapshot(sb)
+    res = run([tools.wild(), *args], cwd=sb, timeout=120)
+    if res.timed_out:
+        return ctx.inconclusive("watchdog")
+    import time
+    time.sleep(0.2)
+    after = snapshot(sb)
+    ctx.note(f"directory-at-output-path:{via}:{kind}:{'ok' if res.ok else 'failed'}")
+    if before != after:
+        gone = sorted(set(before) - set(after))
+        new = sorted(set(after) - set(before))
+        ctx.violation(f"output-path-is-a-directory:directory-moved-or-changed:{via}",
+                      f"`-o {out}` where `{out}` is an existing {via}: the link (rc={res.rc}) removed/moved {gone[:3]} and created {new[:3]}; "
+                      f"GNU ld reports 'Is a directory' and touches nothing", case=cid,
+                      files={"sandbox-after": sb, "stderr.txt": res.errtext() or "(empty)", "cmd.txt": "wild " + " ".join(args)})
+        return
+    ctx.held(fingerprint=f"{cid}:{kind}:{via}:{threads}:{fork}", nontrivial=True)
+
+
 PINNED = [
     dict(out="lib.so", kind="shared", mode="default", prior="present", threads="default", fork="fork", mmap="default", side=[], fail=False),
     dict(out="prog.exe", kind="exe", mode="--no-update-in-place", prior="present", threads="default", fork="fork", mmap="default",
@@ -531,11 +574,11 @@ def main(ctx):
     n = ctx.pick(70, 900)
     nc = ctx.pick(10, 100)
     jobs = [("p", k) for k in range(len(PINNED))] + [("c", i) for i in range(n)] + [("x", i) for i in range(nc)]
-    jobs += [("d", k) for k in range(ctx.pick(5, 25))]
+    jobs += [("d", k) for k in range(ctx.pick(5, 25))] + [("D", k) for k in range(5)]
     if ctx.replay is not None:
         c = str(ctx.replay.get("case"))
         jobs = ([("p", int(c[6:]))] if c.startswith("pinned") else [("x", int(c[4:]))] if c.startswith("conc") else
-                [("d", int(c[3:]))] if c.startswith("del") else [("c", int(c))])
+                [("d", int(c[3:]))] if c.startswith("del") else [("D", int(c[3:]))] if c.startswith("dir") else [("c", int(c))])
 
     def go(j):
         if j[0] == "p":
@@ -544,6 +587,8 @@ def main(ctx):
             concurrent_case(ctx, objs, j[1])
         elif j[0] == "d":
             deletion_case(ctx, objs, j[1])
+        elif j[0] == "D":
+            directory_case(ctx, objs, j[1])
         else:
             one_case(ctx, objs, j[1])
     pmap(go, jobs)
